@@ -23,7 +23,9 @@ def run(ctx: Ctx) -> int:
         "idempotent, absorbing and monotone, which makes the worklist fixpoint unique; the real forward/backward solvers of GroupIndices are run on a 4-block function and on a "
         "13-block function with three subroutines (shared callee, two call chains with different contexts) under a solver-chosen schedule (24 / 48-400 orders of both initial "
         "worklists; the choice is the symbolic variable, the analysis itself then runs concretely inside NoTracing) and give the same sets; (3) every detector, run on contexts with symbolic content, leaves them unchanged; (4) a contract with three functions that share two subroutines is analysed through init_tealer_from_config with a solver-chosen "
-        "sequence of operations (all 6 orders of the three, plus sequences with repeats and subsets): the paths every path detector reports for an operation equal those reported when the operation is analysed alone. Outside the "
+        "sequence of operations (all 6 orders of the three, plus sequences with repeats and subsets): the paths every path detector reports for an operation equal those reported when the operation is analysed alone; (5) history - five contracts that reuse label names, constants and "
+        "subroutine shapes on purpose: after a solver-chosen history of 0-2 of them analysed in the same process, everything tealer computes for a target (all contexts of all blocks, all "
+        "detector paths) equals the result of a fresh interpreter (one reference process per contract, started at import). Outside the "
         "technique: PYTHONHASHSEED, object-address order of list(set(..)), byte-identical JSON across processes - properties of interpreter runs, not of a function a solver can range over",
         [lambda: D.forward_analyis, lambda: D.backward_analysis, lambda: GroupIndices._get_asserted_int_values, lambda: du.validated_in_block, lambda: du.detect_missing_tx_field_validations],
         {"permutations": "24 orders of each initial worklist", "sets": "3-element universes per lattice law"},
